@@ -50,6 +50,26 @@ def send_exception(connection: Connection, e: Exception) -> None:
         connection.send((RuntimeError(f"{type(e).__name__}: {e}"), tb_str))
 
 
+def _fasta_chunks_with_whole_pairs(chunks: Iterator[memoryview]) -> Iterator[memoryview]:
+    """
+    dnaio.read_chunks() keeps the two reads of an interleaved pair in the same chunk
+    only for FASTQ. Re-cut FASTA chunks so that each has an even number of records.
+    """
+    carry = b""
+    for chunk in chunks:
+        data = carry + bytes(chunk)
+        n_records = data.count(b"\n>") + (1 if data.startswith(b">") else 0)
+        if n_records % 2 == 1:
+            last_record_start = data.rfind(b"\n>") + 1
+            data, carry = data[:last_record_start], data[last_record_start:]
+        else:
+            carry = b""
+        if data:
+            yield memoryview(data)
+    if carry:
+        yield memoryview(carry)
+
+
 class ReaderProcess(mpctx_Process):
     """
     Read chunks of FASTA or FASTQ data (single-end or paired) and send them to a worker.
@@ -71,6 +91,7 @@ class ReaderProcess(mpctx_Process):
         queue: multiprocessing.Queue,
         buffer_size: int,
         stdin_fd,
+        interleaved: bool = False,
     ):
         """
         Args:
@@ -98,6 +119,8 @@ class ReaderProcess(mpctx_Process):
         self.queue = queue
         self.buffer_size = buffer_size
         self.stdin_fd = stdin_fd
+        self._interleaved = interleaved
+        self._file_format: Optional[FileFormat] = None
 
     def run(self):
         if self.stdin_fd != -1:
@@ -115,6 +138,7 @@ class ReaderProcess(mpctx_Process):
                     send_exception(self._file_format_connection, e)
                     raise
                 self._file_format_connection.send(file_format)
+                self._file_format = file_format
                 for index, chunks in enumerate(self._read_chunks(*files)):
                     self.send_to_worker(index, *chunks)
             self.shutdown()
@@ -128,7 +152,10 @@ class ReaderProcess(mpctx_Process):
 
     def _read_chunks(self, *files) -> Iterator[Tuple[memoryview, ...]]:
         if len(files) == 1:
-            for chunk in dnaio.read_chunks(files[0], self.buffer_size):
+            chunks = dnaio.read_chunks(files[0], self.buffer_size)
+            if self._interleaved and self._file_format is FileFormat.FASTA:
+                chunks = _fasta_chunks_with_whole_pairs(chunks)
+            for chunk in chunks:
                 yield (chunk,)
         elif len(files) == 2:
             for chunks in dnaio.read_paired_chunks(
@@ -335,6 +362,7 @@ class ParallelPipelineRunner(PipelineRunner):
             queue=self._need_work_queue,
             buffer_size=self._buffer_size,
             stdin_fd=fileno,
+            interleaved=inpaths.interleaved,
         )
         self._reader_process.daemon = True
         self._reader_process.start()
